@@ -317,6 +317,10 @@ type Type struct {
 	Type            []*Type    `yang:"type"` // len > 1 only when Name is "union"
 
 	YangType *YangType
+
+	// unresolved is set when the last attempt to resolve the type reported
+	// errors; YangType is then not final and resolution is tried again.
+	unresolved bool
 }
 
 func (Type) Kind() string             { return "type" }
